@@ -27,14 +27,16 @@ class Opd:
 
 
 class Rule:
-    def __init__(self, mnem, opds, opcode, opbits):
+    def __init__(self, mnem, opds, opcode, opbits, seps=None, family=None):
         self.mnem, self.opds, self.opcode, self.opbits = mnem, opds, opcode, opbits
+        self.seps = seps or [", "] * len(opds)      # separator in front of operand k >= 1
+        self.family = family                        # rules of one family share the shape and differ in one typed width
 
     def size(self):
         return self.opbits + sum(o.size() for o in self.opds)
 
     def shape(self):
-        return (self.mnem, tuple((o.wrap, o.lit if o.kind == "lit" else "*") for o in self.opds))
+        return (self.mnem, tuple((o.wrap, o.lit if o.kind == "lit" else "*", self.seps[k].strip() if k else "") for k, o in enumerate(self.opds)))
 
     def pattern(self, case=lambda s: s):
         parts = []
@@ -48,8 +50,8 @@ class Rule:
                 inner = "{%s: reg}" % name
             else:
                 inner = case(o.lit)
-            parts.append(o.wrap % inner)
-        return case(self.mnem) + (" " + ", ".join(parts) if parts else "")
+            parts.append((self.seps[k] if k else "") + o.wrap % inner)
+        return case(self.mnem) + (" " + "".join(parts) if parts else "")
 
     def production(self):
         parts = ["0x%0*x" % (self.opbits // 4, self.opcode)] if self.opbits % 4 == 0 else ["%d`%d" % (self.opcode, self.opbits)]
@@ -103,7 +105,7 @@ def encode(rule, vals):
     return out
 
 
-def gen_rules(rng):
+def gen_rules(rng, families=False):
     n = rng.randrange(3, 10)
     mn = rng.sample(MNEMONICS, min(n, len(MNEMONICS)))
     rules, shapes = [], set()
@@ -126,7 +128,8 @@ def gen_rules(rng):
             else:
                 opds.append(Opd("lit", lit=rng.choice(["a", "b", "x", "hl"]), wrap=wrap))
         opbits = rng.choice([8, 8, 8, 4, 16])
-        r = Rule(m, opds, rng.randrange(1 << opbits), opbits)
+        seps = [rng.choice([", ", ", ", ", ", " - ", " + ", ","]) if o.wrap == "%s" and (k == 0 or opds[k - 1].wrap == "%s") else ", " for k, o in enumerate(opds)]
+        r = Rule(m, opds, rng.randrange(1 << opbits), opbits, seps)
         # pad to whole bytes with a wider opcode so that every instruction is byte sized
         extra = (-r.size()) % 8
         if extra:
@@ -136,7 +139,41 @@ def gen_rules(rng):
             continue
         shapes.add(r.shape())
         rules.append(r)
+        lits = [k for k, o in enumerate(r.opds) if o.kind == "lit"]
+        if families and lits and rng.random() < 0.5:
+            # literal-versus-expression overlap: the same shape with the literal replaced by an expression operand
+            k = rng.choice(lits)
+            opds2 = list(r.opds)
+            opds2[k] = Opd("typed", "u", 8, wrap=r.opds[k].wrap)
+            r2 = Rule(r.mnem, opds2, rng.randrange(1 << r.opbits), r.opbits, r.seps)
+            r2.opbits += (-r2.size()) % 8
+            r2.opcode = rng.randrange(1 << r2.opbits)
+            if r2.shape() not in shapes:
+                shapes.add(r2.shape())
+                rules.append(r2)
+        typed = [k for k, o in enumerate(r.opds) if o.kind == "typed" and o.xform is None]
+        if families and typed and rng.random() < 0.35:
+            # a sibling with the same shape and a wider/narrower type: the smallest admissible encoding wins
+            k = rng.choice(typed)
+            o = r.opds[k]
+            r.family = len(rules)
+            opds2 = list(r.opds)
+            opds2[k] = Opd("typed", o.ty, o.n + rng.choice([8, 16]), wrap=o.wrap)
+            r2 = Rule(r.mnem, opds2, rng.randrange(1 << r.opbits), r.opbits, r.seps, r.family)
+            rules.append(r2)
     return rules
+
+
+def family_choice(rules, ri, vals):
+    """index of the rule the language definition selects for a line written for rule `ri`: among the
+    rules of its family that admit the values, the one with the smallest encoding"""
+    r = rules[ri]
+    if r.family is None:
+        return ri
+    cands = [j for j, q in enumerate(rules) if q.family == r.family and encode(q, vals) is not None]
+    if not cands:
+        return ri
+    return min(cands, key=lambda j: rules[j].size())
 
 
 def boundary(rng, o):
@@ -153,12 +190,17 @@ class Prog:
     pass
 
 
-def gen_prog(rng, faults=True, banks=None):
+def gen_prog(rng, faults=True, banks=None, families=False):
     """structure + expectation; sizes are static, so the layout is computed in one walk"""
     p = Prog()
-    p.rules = gen_rules(rng)
+    p.rules = gen_rules(rng, families)
     p.items = []
     p.fault = None
+    if families:
+        # symbols named like the literal operands: `ld a` must still select the rule that spells `a`
+        for nm in sorted(set(o.lit for r in p.rules for o in r.opds if o.kind == "lit")):
+            if rng.random() < 0.5:
+                p.items.append(["const", nm, ("lit", rng.randrange(0, 200))])
     nl = rng.randrange(2, 6)
     globs = ["lab%d" % i for i in range(nl)]
     pending = list(globs)
@@ -178,7 +220,21 @@ def gen_prog(rng, faults=True, banks=None):
         r = rng.random()
         if r < 0.6 and p.rules:
             ri = rng.randrange(len(p.rules))
-            p.items.append(["instr", ri, None])
+            if p.rules[ri].family is not None:
+                ops = []
+                for o in p.rules[ri].opds:
+                    if o.kind == "lit":
+                        ops.append((("text", o.lit), 0))
+                    elif o.kind == "reg":
+                        nme, v = rng.choice(REGS)
+                        ops.append((("text", nme), v))
+                    else:
+                        v = boundary(rng, o)
+                        ops.append((("lit", v), v))
+                ri = family_choice(p.rules, ri, [v for _, v in ops])
+                p.items.append(["instr", ri, ops])
+            else:
+                p.items.append(["instr", ri, None])
         elif r < 0.75:
             w = rng.choice([8, 8, 16, 4, 32, 24])
             p.items.append(["data", w, None, rng.choice([2, 4]) if w == 4 else rng.randrange(1, 4)])
@@ -216,11 +272,13 @@ def gen_prog(rng, faults=True, banks=None):
     # ---- values
     syms = dict(addr)
 
-    def pick_value(o):
+    def pick_value(o, plain=False):
         """(text, value) for an expression operand within o's range if possible"""
         v = boundary(rng, o)
-        cands = [(n, a) for n, a in syms.items() if o.kind == "untyped" or in_range(o.ty, o.n, a)]
+        cands = [(n, a) for n, a in syms.items() if (o.kind == "untyped" or in_range(o.ty, o.n, a)) and n not in ("a", "b", "x", "hl")]
         t = rng.random()
+        if plain and t < 0.45:
+            t = 0.0 if cands else 1.0
         if t < 0.35 and cands:
             n, a = rng.choice(cands)
             return ("sym", n), a
@@ -232,7 +290,9 @@ def gen_prog(rng, faults=True, banks=None):
 
     # constants first (they may be referred to by later choices)
     for it in p.items:
-        if it[0] == "const":
+        if it[0] == "const" and it[2] is not None:
+            syms[it[1]] = it[2][1]
+        elif it[0] == "const":
             if rng.random() < 0.5 or not addr:
                 v = rng.randrange(0, 300)
                 it[2] = ("lit", v)
@@ -249,17 +309,25 @@ def gen_prog(rng, faults=True, banks=None):
         if it[0] == "data" and it[2] is not None:
             it[2] = [(x, x[1]) for x in it[2]]
             continue
+        if it[0] == "instr" and it[2] is not None:
+            continue
         if it[0] == "instr":
             rule = p.rules[it[1]]
             ops = []
-            for o in rule.opds:
+            for k, o in enumerate(rule.opds):
                 if o.kind == "lit":
                     ops.append((("text", o.lit), 0))
                 elif o.kind == "reg":
                     nme, v = rng.choice(REGS)
                     ops.append((("text", nme), v))
                 else:
-                    ops.append(pick_value(o))
+                    # an operand in front of an operator-like separator must not contain that operator
+                    nxt = rule.seps[k + 1].strip() if k + 1 < len(rule.opds) else ""
+                    # ... nor may the line be readable as `a + b` by a sibling rule of the same mnemonic
+                    sib = any(q.mnem == rule.mnem and any(sp.strip() == "+" for sp in q.seps[1:len(q.opds)]) for q in p.rules)
+                    ops.append(pick_value(o, plain=sib or nxt in ("+", "-")))
+                    if nxt == "-" and ops[-1][0][0] == "lit" and ops[-1][1] < 0 and False:
+                        pass
             it[2] = ops
             if fault:
                 typed = [k for k, o in enumerate(rule.opds) if o.kind == "typed"]
@@ -316,7 +384,7 @@ def local_view(name, cur_glob):
     return name
 
 
-def render(p, rng=None, case=None, blanks=None, comment=None, rule_order=None, blocks=1, rename=None):
+def render(p, rng=None, case=None, blanks=None, comment=None, rule_order=None, blocks=1, rename=None, mnem=None):
     """program text. case(s): respelling of mnemonics/literals; blanks(): separator between tokens of an
     instruction line; comment(): optional trailing comment; rule_order: permutation; blocks: number of
     #ruledef blocks; rename: label renaming map"""
@@ -355,16 +423,23 @@ def render(p, rng=None, case=None, blanks=None, comment=None, rule_order=None, b
             r = p.rules[it[1]]
             sep = blanks() if blanks else " "
             ops = []
-            for o, (spec, _) in zip(r.opds, it[2]):
+            for k, (o, (spec, _)) in enumerate(zip(r.opds, it[2])):
                 t = render_value(spec, lm, rng)
                 if spec[0] == "text":
                     t = case(t)
-                ops.append(o.wrap % t)
+                sp = r.seps[k] if k else ""
+                if blanks and k:
+                    # a blank that the pattern spells is required; elsewhere blanks are optional
+                    sp = blanks(1 if sp.startswith(" ") else 0) + sp.strip() + blanks(1 if sp.endswith(" ") else 0)
+                w = o.wrap
+                if blanks and w != "%s":
+                    w = w.replace("%s", blanks(0) + "%s" + blanks(0))
+                ops.append(sp + w % t)
             if blanks:
-                line = case(r.mnem) + (blanks(True) + ("," + blanks()).join(ops) if ops else "")
-                line = blanks() + line + blanks()
+                mn = mnem(r.mnem) if mnem else case(r.mnem)
+                line = blanks(0) + mn + (blanks(1) + "".join(ops) if ops else "") + blanks(0)
             else:
-                line = "    " + case(r.mnem) + (" " + ", ".join(ops) if ops else "")
+                line = "    " + case(r.mnem) + (" " + "".join(ops) if ops else "")
             out.append(line + (comment() if comment else ""))
         elif k == "rawinstr":
             out.append("    " + it[1])
